@@ -282,6 +282,9 @@ func (r *rewriter) scanOwn(n ast.Node, nd *need) {
 					if fl, isLit := e.Args[0].(*ast.FuncLit); isLit {
 						r.block(fl.Body)
 					}
+					if !r.opt.Yield {
+						return false // map-order-only instrumentation: goroutines stay unmanaged
+					}
 					e.Args[0] = simCall("Wrap", strLit(r.site(e.Pos())), e.Args[0])
 					r.counts.Go++
 					// Go may block on the group's limit semaphore
